@@ -197,7 +197,9 @@ pub(crate) fn add_regex_priv_match<W, R, T>(
             let mut search_iter = rt.limits.search_iter();
             let base_inp = Input::new(s1.as_str()).anchored(Anchored::Yes);
             let (offset, len) = 'o_l: {
-                for offset in i2..=i3 {
+                // positions are character indices; the engines work on byte offsets
+                for char_idx in i2..=i3.min(s1.len()) {
+                    let offset = s1.byte_of_char(char_idx);
                     let inp = base_inp.clone().range(offset..);
                     if let Some(i) = xraise!(match_at(
                         &r0.dfa,
@@ -229,10 +231,14 @@ pub(crate) fn add_regex_priv_match<W, R, T>(
                 pairs.push(match sub_cap {
                     None => manage_native!(XOptional::<W, R, T> { value: None }, rt.clone()),
                     Some(m) => {
-                        let start =
-                            ManagedXValue::new(XValue::Int(LazyBigint::from(m.start)), rt.clone())?;
-                        let end =
-                            ManagedXValue::new(XValue::Int(LazyBigint::from(m.end)), rt.clone())?;
+                        let start = ManagedXValue::new(
+                            XValue::Int(LazyBigint::from(s1.char_of_byte(m.start))),
+                            rt.clone(),
+                        )?;
+                        let end = ManagedXValue::new(
+                            XValue::Int(LazyBigint::from(s1.char_of_byte(m.end))),
+                            rt.clone(),
+                        )?;
                         let t = ManagedXValue::new(
                             XValue::StructInstance(vec![start, end]),
                             rt.clone(),
